@@ -26,9 +26,9 @@ var c19Kinds = []string{"good", "empty-file", "truncated-good", "random-bytes", 
 func c19Counts(tier string) (enumerated, random, cli, strace int) {
 	n := len(c19Kinds)
 	if tier == "thorough" {
-		return n + n*n + n*n*n + n*n*n*n, 3000, 200, 60
+		return n + n*n + n*n*n + n*n*n*n, 6000, 200, 60
 	}
-	return n + n*n + n*n*n, 300, 20, 6
+	return n + n*n + n*n*n, 1200, 24, 10
 }
 
 func init() {
